@@ -237,6 +237,9 @@ type stats struct {
 	byMut             map[string]int
 	lastCfg           string
 	panics            int
+	prevCfg           string
+	prevRaw           []byte
+	prevLink          *router.VerifR1Link
 }
 
 func cfgKey(c *asCfg) string {
@@ -297,6 +300,10 @@ func emit(e *vlib.Env, w *world, st *stats, sc *scenario, mut string) {
 		e.Branches[mut+"->"+tag]++
 	}
 	in := &input{cfg: &w.cfg, raw: raw, link: link, t0: t0, t1: t1, mut: mut, kind: sc.kind}
+	if st.prevCfg == st.lastCfg {
+		in.prevRaw, in.prevLink = st.prevRaw, st.prevLink // same processor handled this one before
+	}
+	st.prevCfg, st.prevRaw, st.prevLink = st.lastCfg, raw, link
 	if sc.expect != "" {
 		st.expectChecked++
 		if !strings.HasPrefix(a.text+" ", sc.expect) && a.text != strings.TrimSpace(sc.expect) {
